@@ -200,7 +200,6 @@ Proof.
     apply peek_loop_GI in P; auto. destruct P as [I2 C2].
     destruct pend as [|t pend]; [discriminate|].
     destruct (is_kind KLparen t); inversion E; subst; auto.
-    apply GI_same_mnames; auto.
 Qed.
 
 Lemma expand_collect_GI : forall fuel,
@@ -213,18 +212,13 @@ Proof.
     destruct (negb (is_kind KIdent t)); [inversion E; subst; auto|].
     destruct (hide _); [inversion E; subst; auto|].
     destruct (macroget (tbl s) (lit t)) as [m|]; [|inversion E; subst; auto].
-    assert (PUSH : forall m' s3, GI s3 ->
-              GI (mkState (src s3) (nl s3) (tbl_sethide (tbl s3) (mname m) true)
-                          (ctxpush (mbody m) (Some m') (space (if mhide m then set_hide t else t)) :: ctx s3)
-                          (S (depth s3)) (dlog s3)) \/ True) by (intros; right; exact I).
-    clear PUSH.
     assert (PUSH : forall m' s3 sp, mname m' = mname m -> GI s3 ->
               GI (mkState (src s3) (nl s3) (tbl_sethide (tbl s3) (mname m) true)
                           (ctxpush (mbody m) (Some m') sp :: ctx s3) (S (depth s3)) (dlog s3))).
     { intros m' s3 sp NM [D H].
       assert (MN : mnames (ctxpush (mbody m) (Some m') sp :: ctx s3) = mname m :: mnames (ctx s3)).
       { unfold mnames. simpl. destruct (mbody m); simpl; rewrite NM; reflexivity. }
-      split; simpl.
+      split; cbn [depth ctx tbl].
       - rewrite MN. simpl. rewrite D. reflexivity.
       - intros n m0 G Hm. rewrite MN. rewrite macroget_sethide in G.
         destruct (str_eqb (mname m) n) eqn:EQ.
